@@ -236,3 +236,23 @@ def extend(g, api):
             return 'true'
         raise TE('received_max_stream_data: stream-limit test not recognised')
     g.term('maxsdChecksRemoteLimit', 'Bool', f'{STATE}::received_max_stream_data stream limit test', maxsd_checks_limit)
+
+    # ---- Recv::ingest: is a FIN below the data already received a final-size error
+    def ingest_fin_below_end():
+        b = body(RECV, 'ingest')
+        if len(re.findall(r'let\s+new_bytes\s*=\s*self\.credit_consumed_by\(', b)) != 1:
+            raise TE('ingest: expected one `let new_bytes = self.credit_consumed_by(`')
+        head = b[:b.index('let new_bytes')]
+        if not re.search(r'if\s+let\s+Some\(final_offset\)\s*=\s*self\.final_offset\(\)\s*\{\s*'
+                         r'if\s+end\s*>\s*final_offset\s*\|\|\s*\(\s*frame\.fin\s*&&\s*end\s*!=\s*final_offset\s*\)\s*\{', head):
+            raise TE('ingest: final-size test changed')
+        n = len(re.findall(r'self\.end\b', head))
+        nif = len(re.findall(r'\bif\b', head))
+        if n == 0 and nif == 3:
+            return 'false'
+        m = re.findall(r'if\s+frame\.fin\s*&&\s*end\s*<\s*self\.end\s*\{(?:(?!\bif\b|\blet\b).)*?'
+                       r'return\s+Err\(\s*TransportError::FINAL_SIZE_ERROR\(\s*""\s*\)\s*\)\s*;\s*\}', head, flags=re.S)
+        if len(m) == 1 and nif == 4 and n in (1, 2) and head.index('final_offset') < head.index('end < self.end'):
+            return 'true'
+        raise TE('ingest: FIN-below-received test not recognised')
+    g.term('ingestFinBelowEndIsError', 'Bool', f'{RECV}::Recv::ingest FIN below received data', ingest_fin_below_end)
